@@ -13,6 +13,8 @@ MANIFEST_ENTRY = {
     "note": "Shape-bounded (children maps of <= 2 entries, finite name sets), values symbolic; hence level 'other'. _unpack_contents/_pack_contents are stubs here (their round trip is C19). Deferred chains are recorded, not scheduled: operation histories over several directories are compositions of these per-call contracts.",
     "technique": "contract-based deductive verification (pyvc VCs + z3) over enumerated dictionary shapes",
 }
+MANIFEST_ENTRY["text"] += " Bounded end-to-end stand-in (run-time contract, never counted as proved): contracts/grid_dirnode.py drives real DirectoryNodes on real StorageServers through seeded histories of edits over 3..6 directories with NFC-colliding names, compares every listing (same client, fresh client with write cap, fresh client with read cap) with a name-map model and checks build_manifest/deep-stats against the model's graph."
+MANIFEST_ENTRY["technique"] += "; plus bounded end-to-end run-time scenario contracts on an in-process grid of the real components (stand-in, labelled bounded)"
 EXPLANATION = "dict-shape partition with symbolic timestamps; call-log ghost state for packing and Deferred chains."
 TRUSTED = ["unicodedata.normalize (used natively on concrete names)"]
 ASSUMPTIONS = []
